@@ -64,7 +64,7 @@ class C12(Prop):
                   'exact integer arithmetic (boundary-directed cases k*p/1000 +- 1 are run; not proved); price_per_hour and '
                   'possible_cloud_locations are replaced by case-supplied tables (price is uninterpreted in the theorems); jvm-specific '
                   'checks of the block are not exercised (docker jobs only).')
-    budget = {'quick': 8000, 'thorough': 200000}
+    budget = {'quick': 20000, 'thorough': 400000}
     search_budget = {'quick': 10000, 'thorough': 200000}
     rule = ('case = (cloud, job-private manager, 0..3 locations, 0..5 pools with worker type / cores from the valid-cores tables, preemptible, '
             'label, per-location prices with ties; request = machine_type | (cpu string, memory = lowmem/standard/highmem or a size string, '
@@ -260,6 +260,21 @@ class C12(Prop):
     def _pool_ok(self, p):
         return p['worker_type'] in self.mem_per_core.get(p['cloud'], {})
 
+    def _worker_memory(self, p):
+        """memory of the machine a worker of this pool runs on (machine table; cores x per-core when the table has no such machine)"""
+        try:
+            if p['cloud'] == 'gcp':
+                from batch.cloud.gcp.resource_utils import family_worker_type_cores_to_gcp_machine_type
+                mt = family_worker_type_cores_to_gcp_machine_type(self.tables['gcp_family'], p['worker_type'], p['cores'])
+            else:
+                from batch.cloud.azure.resource_utils import azure_worker_properties_to_machine_type
+                mt = azure_worker_properties_to_machine_type(p['worker_type'], p['cores'], True)
+            if mt in self.machines[p['cloud']]:
+                return self.machines[p['cloud']][mt][1]
+        except Exception:
+            pass
+        return p['cores'] * self.mem_per_core[p['cloud']][p['worker_type']]
+
     def _matching(self, c, q):
         return [p for p in c['pools'] if p['cloud'] == c['cloud'] and p['preemptible'] == q['pre'] and p['label'] == q['label']
                 and (q['wt'] is None or p['worker_type'] == q['wt'])]
@@ -339,8 +354,8 @@ class C12(Prop):
             return f'granted memory {mem} bytes < requested {q["mem"]} bytes (pool {name}, {cores} mcpu)'
         if cores > p['cores'] * 1000:
             return f'granted {cores} mcpu does not fit a worker of pool {name} ({p["cores"]} cores)'
-        if self._pool_ok(p) and mem > p['cores'] * self.mem_per_core[p['cloud']][p['worker_type']]:
-            return f'granted memory {mem} does not fit a worker of pool {name}'
+        if self._pool_ok(p) and mem > self._worker_memory(p):
+            return f'granted memory {mem} does not fit a worker of pool {name} ({self._worker_memory(p)} bytes)'
         return None
 
     # ---- generation -----------------------------------------------------------------------------------
@@ -391,7 +406,7 @@ class C12(Prop):
             req = {}
             mode = rng.random()
             storage_choices = [0, 0, 1, 10 * GIB - 1, 10 * GIB, 10 * GIB + 1, 375 * GIB, rng.randint(0, 2 ** 40), rng.randint(0, 100) * GIB,
-                               rng.randint(0, 2 ** 36), rng.randint(0, 100) * GIB + rng.choice([-1, 1]),
+                               rng.randint(0, 2 ** 36), rng.randint(1, 100) * GIB + rng.choice([-1, 1]),
                                rng.choice([self.max_storage[cloud] - 1, self.max_storage[cloud], self.max_storage[cloud] + 1,
                                            self.max_storage[other]])]
             if rng.random() < 0.75:
